@@ -88,6 +88,9 @@ func fuzzGenome(r *rand.Rand, g *genetics.Genome, id int) (*genetics.Genome, *Sn
 			if r.Intn(12) == 0 {
 				s.Nodes[i].Act = byte(c15CustomActivation)
 			}
+			if late := r.Intn(12) == 0; late && c15LateRegistered {
+				s.Nodes[i].Act = byte(c15LateActivation)
+			}
 		}
 		if r.Intn(4) == 0 {
 			s.Nodes[i].TraitId = 0
@@ -123,10 +126,26 @@ const c15CustomActivation = neatmath.NodeActivationType(40)
 
 var c15RegisterOnce sync.Once
 
+// ... and two more which the application registers while it is running, after genomes have been written and read already:
+// another scalar function (at the start of the second case of the process) and a module function (before the first modular
+// genome of the process is written)
+const c15LateActivation = neatmath.NodeActivationType(42)
+const c15LateModuleActivation = neatmath.NodeActivationType(43)
+
+var c15LateRegistered, c15LateModuleRegistered bool
+var c15CasesRun int
+
 func runC15(c *Ctx, idx int) {
 	c15RegisterOnce.Do(func() {
 		neatmath.NodeActivators.Register(c15CustomActivation, func(x float64, _ []float64) float64 { return x / (1 + x*x) }, "Custom40Activation")
 	})
+	if c15CasesRun++; c15CasesRun == 2 || c.Replay && !c15LateRegistered {
+		neatmath.NodeActivators.Register(c15LateActivation, func(x float64, _ []float64) float64 { return x / (2 + math.Abs(x)) }, "Custom42Activation")
+		c15LateRegistered = true
+	}
+	if c15LateRegistered {
+		c.Count("cases.after_a_scalar_activation_was_registered_at_run_time", 1)
+	}
 	r := c.G
 	pool := genomePool(r)
 	per := 12
@@ -166,10 +185,23 @@ func runC15(c *Ctx, idx int) {
 	}
 	ms := snapGenome(mg)
 	modularVariants(r, ms)
+	if !c15LateModuleRegistered {
+		neatmath.NodeActivators.RegisterModule(c15LateModuleActivation, func(xs []float64, _ []float64) []float64 {
+			sum := 0.0
+			for _, x := range xs {
+				sum += x
+			}
+			return []float64{sum / float64(len(xs))}
+		}, "Custom43ModuleActivation")
+		c15LateModuleRegistered = true
+	}
 	for i := range ms.Modules {
 		ms.Modules[i].En = r.Intn(3) != 0
 		ms.Modules[i].Mut = fbits(fuzzFloat(r))
-		ms.Modules[i].Act = byte(pick(r, neatmath.MultiplyModuleActivation, neatmath.MaxModuleActivation, neatmath.MinModuleActivation))
+		ms.Modules[i].Act = byte(pick(r, neatmath.MultiplyModuleActivation, neatmath.MaxModuleActivation, neatmath.MinModuleActivation, c15LateModuleActivation))
+		if ms.Modules[i].Act == byte(c15LateModuleActivation) {
+			c.Count("modules.with_an_activation_registered_at_run_time", 1)
+		}
 		if r.Intn(2) == 0 {
 			ms.Modules[i].TraitId = 1 + r.Intn(len(ms.Traits))
 		}
@@ -193,6 +225,9 @@ func runC15(c *Ctx, idx int) {
 		return
 	}
 	if idx%8 == 0 && !c15LargeGenome(c, r) {
+		return
+	}
+	if idx%64 == 5 && !c15DenseGenome(c, r) {
 		return
 	}
 }
@@ -717,4 +752,78 @@ func largeGenomeSnap(r *rand.Rand) *SnapGenome {
 	}
 	gene(prev, 3, true)
 	return s
+}
+
+// c15DenseGenome round trips a genome whose written form is a few megabytes long: 150-180 nodes with (nearly) every ordered
+// pair of them joined, plain encoding and the binary form of an organism
+func c15DenseGenome(c *Ctx, r *rand.Rand) bool {
+	n := 150 + r.Intn(30)
+	s := &SnapGenome{Id: 9}
+	for t := 1; t <= 2; t++ {
+		tr := SnapTrait{Id: t, Params: make([]uint64, 8)}
+		for j := range tr.Params {
+			tr.Params[j] = fbits(r.Float64())
+		}
+		s.Traits = append(s.Traits, tr)
+	}
+	for id := 1; id <= n; id++ {
+		nd := SnapNode{Id: id, Neuron: byte(network.HiddenNeuron), Act: byte(neatmath.SigmoidSteepenedActivation), TraitId: 1 + r.Intn(2)}
+		switch {
+		case id <= 3:
+			nd.Neuron, nd.Act = byte(network.InputNeuron), byte(neatmath.NullActivation)
+		case id == 4:
+			nd.Neuron, nd.Act = byte(network.BiasNeuron), byte(neatmath.NullActivation)
+		case id <= 6:
+			nd.Neuron = byte(network.OutputNeuron)
+		}
+		s.Nodes = append(s.Nodes, nd)
+	}
+	innov := int64(0)
+	for u := 1; u <= n; u++ {
+		for v := 5; v <= n; v++ {
+			if r.Intn(50) == 0 {
+				continue
+			}
+			innov++
+			w := fuzzFloat(r)
+			s.Genes = append(s.Genes, SnapGene{In: u, Out: v, Innov: innov, W: fbits(w), Mut: fbits(w), En: r.Intn(5) != 0, Rec: v <= u, TraitId: r.Intn(3)})
+		}
+	}
+	g := buildFromSnap(s)
+	c.Count("roundtrip.genome_of_megabytes", 1)
+	c.Count("roundtrip.genome_of_megabytes.genes", len(s.Genes))
+	brief := &SnapGenome{Id: s.Id, Traits: s.Traits, Nodes: s.Nodes[:8], Genes: s.Genes[:8]}
+	var buf bytes.Buffer
+	if err := g.Write(&buf); err != nil {
+		c.Violate("write-error/plain", map[string]interface{}{"genome_head": brief, "nodes": n, "genes": len(s.Genes)}, "writing a genome of %d nodes and %d genes failed: %v", n, len(s.Genes), err)
+		return false
+	}
+	size := buf.Len()
+	back, err := genetics.ReadGenome(&buf, s.Id)
+	c.Eval(1)
+	detail := map[string]interface{}{"genome_head": brief, "nodes": n, "genes": len(s.Genes), "bytes_written": size, "key": "dense-genome"}
+	if err != nil {
+		c.Violate("read-error/plain", detail, "reading back the written genome (%d nodes, %d genes, %d bytes) failed: %v", n, len(s.Genes), size, err)
+		return false
+	}
+	if d := diffGenomes(s, snapGenome(back)); d != "" {
+		c.Violate("genome-differs/plain", detail, "genome of %d nodes and %d genes (%d bytes written) read back differs: %s", n, len(s.Genes), size, d)
+		return false
+	}
+	org, _ := genetics.NewOrganism(1.5, g, 3)
+	data, err := org.MarshalBinary()
+	if err != nil {
+		c.Violate("organism-error", detail, "MarshalBinary failed on an organism whose genome has %d genes: %v", len(s.Genes), err)
+		return false
+	}
+	restored := &genetics.Organism{}
+	if err = restored.UnmarshalBinary(data); err != nil || restored.Genotype == nil {
+		c.Violate("organism-error", detail, "UnmarshalBinary failed on the %d bytes MarshalBinary wrote for an organism whose genome has %d genes: %v", len(data), len(s.Genes), err)
+		return false
+	}
+	if d := diffGenomes(s, snapGenome(restored.Genotype)); d != "" {
+		c.Violate("organism-differs/binary", detail, "organism's genome (%d genes) restored from its binary form differs: %s", len(s.Genes), d)
+		return false
+	}
+	return true
 }
